@@ -10,6 +10,8 @@ table of the origin; the Locator() accessor is probed at compile time (detection
 import itertools
 
 from .. import common
+from .. import model as M
+from .. import cfggen
 from .. import cxxlab
 from .. import progrun
 from .. import scripts
@@ -36,8 +38,22 @@ def eval_program(arg) -> dict:
         # ... and a shell without any rerouted port must still validate the facilities
         prog.enc['provides'] = {'sts': 'ALL', 'mts': 'NONE'}
         prog.enc['requires'] = {'sts': 'ALL', 'mts': 'NONE'}
-    case['cfg'] = prog.enc
     out = {'violations': [], 'counts': {}}
+    if stream % 4 in (0, 1):
+        # a rerouted port named like one of the shell's own parts: the facilities are the
+        # shell's, whatever the ports are called
+        mcp = (prog.enc.get('multiclient') or {}).get('port')
+        cands = [p for p in prog.info['requires'] + prog.info['provides'] if p != mcp]
+        word = ['locator', 'dispatcher', 'runtime', 'encapsulee'][(stream // 2) % 4]
+        if cands and word not in prog.info['order']:
+            prog.info = cfggen.rename_port(prog.gen, prog.ent, prog.enc, cands[0], word)
+            case['ports'] = prog.info['ports']
+            case['doc'] = M.to_json(prog.gen.model)
+            prog.enc['requires'] = {'sts': 'NONE', 'mts': 'ALL'}
+            if not prog.enc.get('multiclient'):
+                prog.enc['provides'] = {'sts': 'NONE', 'mts': 'ALL'}
+            out['counts']['programs_with_a_port_named_like_a_shell_part'] = 1
+    case['cfg'] = prog.enc
     flavor = 'asan'
     if not progrun.build_or_report(prog, case, out, [flavor]):
         return progrun.finish_program(prog, out, case)
@@ -73,7 +89,7 @@ def main(tier: str) -> int:
     run = common.Run(PROP, tier)
     n = 6 if tier == 'quick' else 150
     run.require('constructions', 'constructed', 'refused', 'identity_comparisons', 'origin_create',
-                'origin_import', 'posts_seen')
+                'origin_import', 'posts_seen', 'programs_with_a_port_named_like_a_shell_part')
     scratch = run.scratch()
     progrun.drive(run, eval_program, [(run.seed, i, scratch, tier) for i in range(n)])
     return run.finish(
